@@ -46,6 +46,9 @@ RULE = ("RTP/RTCP: one real RTCDtlsTransport + video receiver (VP8/H264/RTX) + a
         "records truncated / over-long / wrong version / wrong epoch / application data / nonsense handshake fragments, STUN-looking, empty, 1 byte, "
         "1500+ bytes, duplicated flights) before start(), before every handshake datagram in either direction, right after connected, while "
         "connected, between stop() and the close_notify, after closed, and stop() in the middle of the handshake; "
+        "elapsed time and several streams: 12 (quick) / 120 (thorough) cases whose clock (aiortc.clock.current_ms) advances per datagram by 0..1000 ms and idle gaps of "
+        "1999/2000/2001/5000/10000 ms over >= 4.5 s of flow so that REMB estimates are produced, with 2-4 SSRCs with abs-send-time per video receiver (media, RTX, strays) that "
+        "start and fall silent at different times; 15 % of the random cases get a clock too; "
         "distinct = distinct datagram list; nontrivial = at least one hostile datagram reached a receiver, a sender or a parser error")
 
 ASSUMPTIONS = [
@@ -277,6 +280,15 @@ class World:
             return _orig(stats)
         st.add = add
 
+    def set_clock(self, ms):
+        """Drive the clock the receive path reads (`aiortc.clock.current_ms`: `arrival_time_ms` of every RTP packet, i.e.
+        the time base of the remote bitrate estimator) - looked up by name; a missing seam is simply not driven."""
+        import aiortc.clock as C
+        self.now_ms = ms
+        if getattr(self, "_clock_saved", None) is None and callable(getattr(C, "current_ms", None)):
+            self._clock_saved = (C, C.current_ms)
+            C.current_ms = lambda: self.now_ms
+
     def set_srtp(self, on: bool):
         """`on=False`: the transport as `_do_handshake` sees it - `start()` has been called, the SRTP sessions do not exist
         yet, the state is `connecting`; `on=True`: as after `_setup_srtp()`."""
@@ -303,7 +315,9 @@ class World:
                 elif isinstance(p, rtp.RtcpPsfbPacket) and p.fmt == rtp.RTCP_PSFB_PLI:
                     out.append(f"pli:{p.media_ssrc}")
                 elif isinstance(p, rtp.RtcpPsfbPacket) and p.fmt == rtp.RTCP_PSFB_APP:
-                    pass        # REMB: value depends on wall-clock arrival times
+                    # REMB: the value is the estimator's (C15); the SSRC list goes to the oracle, not to the trace
+                    self.rembs.append([int.from_bytes(p.fci[i:i + 4], "big") for i in range(8, len(p.fci) - 3, 4)]
+                                      if p.fci[:4] == b"REMB" else None)
                 elif isinstance(p, (rtp.RtcpRrPacket,)):
                     pass        # periodic receiver report (timer)
                 else:
@@ -314,8 +328,11 @@ class World:
             return [f"rtx:{p.payload_type}:{p.sequence_number}:{int.from_bytes(p.payload[:2], 'big')}:{len(p.payload) - 2}"]
         return [f"rtp:{p.payload_type}:{p.sequence_number}:{len(p.payload)}"]
 
+    rembs: list = []
+
     def feed(self, data: bytes):
         """-> (events, elapsed_ms)"""
+        self.rembs = []
         before = self._snapshot()
         self.sender._RTCRtpSender__force_keyframe = False
         del self.log[:]
@@ -366,6 +383,9 @@ class World:
             self.loop.run_until_complete(fin())
         finally:
             self.loop.close()
+            if getattr(self, "_clock_saved", None) is not None:
+                setattr(self._clock_saved[0], "current_ms", self._clock_saved[1])
+                self._clock_saved = None
 
 
 # ------------------------------------------------------------------------------------------------
@@ -506,18 +526,22 @@ def run_case(case):
     import gc
     gc.collect()
     w = World(case.get("rtx0", RTX0))
-    trace, slow = [], []
+    trace, slow, rembs = [], [], []
     gc.disable()            # a generation-2 collection would be billed to whichever datagram triggers it
     hung = False
     try:
         steps = expand(case)
+        times = clock_times(case, steps)
         nosrtp = case.get("nosrtp", 0)
         if nosrtp:
             w.set_srtp(False)
         for i, (kind, d, meta) in enumerate(steps):
             if nosrtp and i == nosrtp:
                 w.set_srtp(True)
+            if times is not None:
+                w.set_clock(times[i])
             ev, ms = w.feed(d)
+            rembs.extend((i, r) for r in w.rembs)
             if ms > SLOW_MS:
                 # re-measure is impossible (state moved on): report, the oracle decides
                 slow.append((i, round(ms, 1), len(d)))
@@ -535,7 +559,30 @@ def run_case(case):
         except Exception:  # noqa: BLE001
             if not hung:
                 raise
-    return {"trace": trace, "slow": slow}
+    return {"trace": trace, "slow": slow, "rembs": rembs}
+
+
+def clock_times(case, steps):
+    """`case["clock"] = {"t0": ms, "pre": step, "ops": [step per op], "post": step, "gap": step}`: the value of
+    `clock.current_ms()` when each datagram of the expanded case arrives (None: the wall clock is not touched)."""
+    ck = case.get("clock")
+    if not ck:
+        return None
+    per_op = []
+    for op, st in zip(case["ops"], ck["ops"]):
+        per_op.extend([st] * (op[2] if len(op) > 2 else 1))
+    t, out, j, first_post = ck["t0"], [], 0, True
+    for kind, _, _ in steps:
+        if kind == "pre":
+            t += ck["pre"]
+        elif kind == "hostile":
+            t += per_op[j] if j < len(per_op) else 0
+            j += 1
+        else:
+            t += ck["post"] + (ck.get("gap", 0) if first_post else 0)
+            first_post = False
+        out.append(t)
+    return out
 
 
 def run_case_timed(case):
@@ -558,6 +605,26 @@ def impl_string(res):
 # ------------------------------------------------------------------------------------------------
 # oracle: the property on the implementation's behaviour only
 # ------------------------------------------------------------------------------------------------
+
+def remb_oracle(case, rembs):
+    """Every REMB the receiver sent while datagram #i was processed names only SSRCs that an RTP-looking datagram up to #i
+    carried (read independently from the bytes) and names none twice."""
+    if not rembs:
+        return None
+    steps = expand(case)
+    seen, upto = set(), -1
+    for i, ssrcs in rembs:
+        while upto < i:
+            upto += 1
+            d = steps[upto][1]
+            if len(d) >= 12 and 128 <= d[0] < 192 and not (192 <= d[1] <= 208):
+                seen.add(int.from_bytes(d[8:12], "big"))
+        if ssrcs is None:
+            return f"datagram #{i} made the receiver send a PSFB application message that is not a REMB"
+        if len(set(ssrcs)) != len(ssrcs) or not set(ssrcs) <= seen:
+            return f"datagram #{i}: REMB lists SSRCs {ssrcs}, seen so far: {sorted(seen)}"
+    return None
+
 
 def forging_bye(case) -> bool:
     """Independent reading of the datagrams: does a hostile datagram carry an RTCP BYE for an SSRC that is registered or
@@ -909,6 +976,45 @@ def gen_long_case(rng, total, full_cycle=False):
     return case
 
 
+IDLE_GAPS = [1999, 2000, 2001, 5000, 10000]
+STEPS_MS = [0, 1, 5, 10, 20, 33, 100, 500, 1000]
+
+
+def ast_of(ms):
+    """abs-send-time (24 bit, 6.18 fixed point seconds) of a packet sent at `ms`."""
+    return ((ms << 18) // 1000) & 0xFFFFFF
+
+
+def gen_timed_case(rng):
+    """ELAPSED TIME and SEVERAL STREAMS per receiver.  The clock the receive path reads advances per datagram by realistic
+    and by large steps (0 .. 1000 ms, idle gaps of 1999 / 2000 / 2001 / 5000 / 10000 ms); the main video stream (pre / post
+    media, abs-send-time on every packet) flows for >= 4.5 s of simulated time so that the remote bitrate estimator
+    produces estimates (REMB); in between, 1..3 secondary streams that reach the same receiver - retransmissions on the RTX
+    SSRC, stray SSRCs with a payload type of the receiver - start and fall silent at different times."""
+    t0 = rng.choice([1700000000000, 0, (1 << 32) - 3000, (1 << 31) - 3000, rng.randrange(1 << 41)])
+    post_step = rng.choice([20, 20, 33, 50, 100])
+    start = [rng.choice([100, 65500, 65535 - rng.randrange(9)]), rng.choice([0, 4294960000, 123456])]
+    case = {"pre": rng.choice([1, 3, 6]), "start": start, "ops": [], "post": 75,
+            "ast0": ast_of(t0) if rng.random() < 0.7 else rng.randrange(1 << 24)}
+    streams = rng.sample([(V_RTX_SSRC, PT_RTX_VP8), (777, PT_RTX_NOAPT), (999, PT_RTX_BADAPT), (0xFFFFFFFF, PT_RTX_NOAPT), (V_RTX_SSRC, PT_RTX_H264)],
+                         rng.choice([1, 1, 2, 3]))
+    t = t0 + case["pre"] * 3 * 10
+    steps, seq = [], rng.randrange(65536)
+    for _ in range(rng.choice([1, 2, 4, 8, 20])):
+        ssrc, pt = rng.choice(streams)
+        st = rng.choice(STEPS_MS + IDLE_GAPS)
+        t += st
+        seq = (seq + 1) % 65536
+        ext = ext_block(0xBEDE, one_byte_ext([(EXT_IDS["abs_send_time"], ast_of(t).to_bytes(3, "big"))]))
+        payload = struct.pack("!H", (start[0] - 1 - rng.randrange(3)) % 65536) + b"\x10abc"
+        case["ops"].append([hx(rtp_hdr(pt, seq, (t * 90) & 0xFFFFFFFF, ssrc, x=1) + ext + payload), False])
+        steps.append(st)
+    case["clock"] = {"t0": t0, "pre": 10, "ops": steps, "post": post_step, "gap": rng.choice([0, 20] + IDLE_GAPS)}
+    if rng.random() < 0.3:
+        case["rtx0"] = 65535 - rng.randrange(12)
+    return case
+
+
 def gen_case(rng, nmax=24):
     pre = rng.choice([0, 0, 1, 2, 3, 6])
     start = [rng.choice([0, 100, 65500, 65535, 32760, 32767, 65535 - rng.randrange(9)]),
@@ -920,6 +1026,12 @@ def gen_case(rng, nmax=24):
     for _ in range(rng.randrange(1, nmax + 1)):
         d, f, _ = gen_hostile(rng, m)
         case["ops"].append([hx(d), bool(f)])
+    if rng.random() < 0.15:
+        # the hostile datagrams are spread over time (several SSRCs with abs-send-time reach the estimator at different times)
+        case["clock"] = {"t0": rng.choice([1700000000000, 0, (1 << 32) - 3000]), "pre": 10,
+                         "ops": [rng.choice(STEPS_MS + IDLE_GAPS) for _ in case["ops"]], "post": rng.choice([20, 33, 100]),
+                         "gap": rng.choice([0, 20] + IDLE_GAPS)}
+        case.setdefault("ast0", ast_of(case["clock"]["t0"]))
     if rng.random() < 0.2:
         # the receive path is entered before the SRTP sessions exist: `_do_handshake` reads datagrams through `_recv_next`
         n = sum(1 for kind, _, _ in expand(case) if kind != "post")
@@ -1049,6 +1161,7 @@ class RtpWorld(Component):
 
     def __init__(self):
         self._slow = {}
+        self._rembs = {}
 
     def corpus(self):
         return systematic_cases()
@@ -1056,6 +1169,8 @@ class RtpWorld(Component):
     def cases(self, rng, tier):
         n = self.quick if tier == "quick" else self.thorough
         out = [gen_case(rng) for _ in range(n)]
+        # elapsed time and several streams per receiver
+        out += [gen_timed_case(rng) for _ in range(12 if tier == "quick" else 120)]
         # long feedback histories over counters that start next to their wrap point
         if tier == "quick":
             out += [gen_long_case(rng, rng.choice([300, 500, 800])) for _ in range(5)]
@@ -1074,6 +1189,7 @@ class RtpWorld(Component):
             self._slow[key] = res["slow"]
         else:
             self._slow.pop(key, None)
+        self._rembs[key] = res["rembs"]
         return impl_string(res)
 
     def oracle(self, case, impl_out):
@@ -1085,10 +1201,14 @@ class RtpWorld(Component):
             steps = expand(case)
             return "datagrams cost more than %.0f ms of CPU in three runs: %s" % (
                 SLOW_MS, [(i, ms, n, hx(steps[i][1])[:60]) for i, ms, n in slow])
-        return None
+        return remb_oracle(case, self._rembs.get(json.dumps(case, sort_keys=True)) or [])
 
     def label(self, case, impl_out):
-        return _label(case, impl_out)
+        lab = _label(case, impl_out)
+        if case.get("clock"):
+            n = len(self._rembs.get(json.dumps(case, sort_keys=True)) or [])
+            return "timed:" + ("remb" if n else "no-remb") + ":" + lab
+        return lab
 
     def nontrivial(self, case, impl_out):
         lab = _label(case, impl_out)
@@ -1109,10 +1229,16 @@ class RtpWorld(Component):
                         yield dict(case, ops=ops[:i] + [[op[0], op[1], r]] + ops[i + 1:])
         if case.get("ast0") is not None:
             yield {k: v for k, v in case.items() if k != "ast0"}
+        if case.get("clock"):
+            ck = case["clock"]
+            if len(ck["ops"]) == len(ops):      # keep the schedule aligned with the ops that are left
+                for i in range(len(ops)):
+                    if len(ops) > 1:
+                        yield dict(case, ops=ops[:i] + ops[i + 1:], clock=dict(ck, ops=ck["ops"][:i] + ck["ops"][i + 1:]))
         if case["pre"]:
             yield dict(case, pre=case["pre"] - 1)
-        if case.get("post", 75) > 25:
-            yield dict(case, post=25)
+        # (no shrinking of `post`: with fewer than ~45 frames after a hole in the sequence numbers the jitter buffer has not
+        # moved on yet, and the shrunk case would fail the frame-delivery clause for a reason of its own)
         for i, op in enumerate(ops):
             d = unhx(op[0])
             if len(d) > 2:
